@@ -24,8 +24,9 @@ from pathlib import Path
 
 FUNCS = ["updateHeightAndSlope", "rotr", "rotl", "shiftr", "shiftl", "rebal"]
 HEADERS = {"Map": "include/nstd/Map.hpp", "Multi": "include/nstd/MultiMap.hpp"}
-FIELD_TYPES = {"Item*": "ptr", "usize": "usize", "ssize": "ssize"}
-HEAP_FIELDS = {"parent": "ptr", "left": "ptr", "right": "ptr", "height": "usize", "slope": "ssize"}   # what Heap.lean offers
+FIELD_TYPES = {"Item*": "ptr", "usize": "usize", "ssize": "ssize", "T": "key", "Iterator": "ptr"}
+HEAP_FIELDS = {"parent": "ptr", "left": "ptr", "right": "ptr", "height": "usize", "slope": "ssize",
+               "key": "key", "next": "ptr", "prev": "ptr"}   # what Heap.lean offers
 
 
 class Refuse(Exception):
@@ -69,7 +70,7 @@ def balanced(src, start, open_ch="{", close_ch="}"):
 
 def extract(src, name):
     """(return type, static?, parameter text, body text) of the single definition of `name`"""
-    rx = re.compile(r"(static\s+)?(void|Item\s*\*)\s+" + name + r"\s*\(([^)]*)\)\s*\{")
+    rx = re.compile(r"(static\s+)?(void|Item\s*\*|Iterator|usize)\s+" + name + r"\s*\(([^)]*)\)\s*(?:const\s*)?\{")
     ms = list(rx.finditer(src))
     if len(ms) != 1:
         raise Refuse(f"{name}: {len(ms)} definitions found, expected exactly one")
@@ -171,10 +172,46 @@ class P:
                 raise Refuse(f"{self.fn}: ASSERT with a side effect")
             self.eat(";")
             return ("skip",)
-        if tok in ("for", "while", "do", "goto", "switch", "break", "continue", "new", "delete"):
+        if tok == "for":
+            self.eat("for"); self.eat("(")
+            init = None
+            if self.peek() != ";":
+                init = self.stmt()                 # declaration or expression statement, eats the ';'
+                if init[0] not in ("decl", "expr"):
+                    raise Refuse(f"{self.fn}: for-init of kind {init[0]}")
+            else:
+                self.eat(";")
+            cond = None
+            if self.peek() != ";":
+                cond = self.expr()
+            self.eat(";")
+            step = []
+            if self.peek() != ")":
+                step.append(("expr", self.expr()))
+                while self.peek() == ",":
+                    self.eat(",")
+                    step.append(("expr", self.expr()))
+            self.eat(")")
+            return ("for", init, cond, step, self.stmt())
+        if tok == "while":
+            self.eat("while"); self.eat("(")
+            c = self.expr()
+            self.eat(")")
+            return ("for", None, c, [], self.stmt())
+        if tok == "do":
+            self.eat("do")
+            b = self.stmt()
+            self.eat("while"); self.eat("(")
+            c = self.expr()
+            self.eat(")"); self.eat(";")
+            return ("dowhile", b, c)
+        if tok in ("break", "continue"):
+            self.eat(); self.eat(";")
+            return (tok,)
+        if tok in ("goto", "switch", "new", "delete"):
             raise Refuse(f"{self.fn}: statement `{tok}` is outside the translated subset")
         # declaration?
-        if tok in ("Item", "usize", "ssize") and self.peek(1) not in ("->", "=", "(", "."):
+        if tok in ("Item", "usize", "ssize", "Iterator") and self.peek(1) not in ("->", "=", "(", "."):
             ty = self.eat()
             if self.peek() == "*":
                 self.eat("*"); ty += "*"
@@ -185,8 +222,11 @@ class P:
             name = self.eat()
             if not re.fullmatch(r"[A-Za-z_]\w*", name):
                 raise Refuse(f"{self.fn}: declarator {name!r}")
+            if self.peek() == ";":
+                self.eat(";")
+                return ("decl", ty, name, None)
             if self.peek() != "=":
-                raise Refuse(f"{self.fn}: declaration of `{name}` without initialiser")
+                raise Refuse(f"{self.fn}: declarator of `{name}`")
             self.eat("=")
             e = self.expr()
             self.eat(";")
@@ -249,7 +289,13 @@ class P:
         if tok == "!":
             self.eat()
             return ("not", self.unary())
-        if tok in ("*", "&", "++", "--", "~"):
+        if tok == "&" and self.peek(1) == "endItem" and self.peek(2) not in ("->", ".", "["):
+            self.eat(); self.eat()
+            return ("endptr",)
+        if tok == "++":
+            self.eat()
+            return ("preinc", self.unary())
+        if tok in ("*", "&", "--", "~"):
             raise Refuse(f"{self.fn}: operator `{tok}` is outside the translated subset")
         return self.postfix()
 
@@ -278,6 +324,10 @@ class P:
             raise Refuse(f"{self.fn}: unexpected token {tok!r}")
         while self.peek() in ("->", ".", "[", "++", "--"):
             op = self.eat()
+            if op == "." and self.peek() == "item":
+                self.eat()
+                a = ("dotitem", a)
+                continue
             if op != "->":
                 raise Refuse(f"{self.fn}: operator `{op}` is outside the translated subset")
             f = self.eat()
@@ -345,7 +395,23 @@ class Tr:
                 return f"(h.{x} self)", self.field_type(x)
             if not self.in_item and x == "root":
                 return "h.root", "ptr"
+            if not self.in_item and x == "_end":
+                return "h.endItem", "ptr"             # the Iterator whose item is &endItem
             raise Refuse(f"{self.fn}: unknown name `{x}`")
+        if k == "endptr":
+            if self.in_item:
+                raise Refuse(f"{self.fn}: &endItem inside Item")
+            return "h.endItem", "ptr"
+        if k == "dotitem":
+            t, ty = self.rv(e[1], env, "ptr")
+            if ty != "ptr":
+                raise Refuse(f"{self.fn}: `.item` applied to {ty}")
+            return t, "ptr"
+        if k == "call" and e[1] == "Iterator" and len(e[2]) == 1:
+            t, ty = self.rv(e[2][0], env, "ptr")
+            if ty != "ptr":
+                raise Refuse(f"{self.fn}: Iterator({ty})")
+            return t, "ptr"
         if k == "field":
             t, ty = self.rv(e[1], env, "ptr")
             if ty != "ptr":
@@ -397,7 +463,7 @@ class Tr:
                 a, ta = self.rv(e[2], env, tb)
             if tb == "lit" and ta != "lit":
                 b, tb = self.rv(e[3], env, ta)
-            if ta != tb or ta not in ("ptr", "usize", "ssize"):
+            if ta != tb or ta not in ("ptr", "usize", "ssize", "key"):
                 raise Refuse(f"{self.fn}: comparison of {ta} with {tb}")
             if ta == "ptr" and e[1] not in ("==", "!="):
                 raise Refuse(f"{self.fn}: ordering comparison of pointers")
@@ -562,6 +628,296 @@ class Tr:
         raise Refuse(f"{self.fn}: statement form `{k}` is outside the translated subset")
 
 
+LEAN_TY = {"ptr": "Nat", "usize": "Nat", "ssize": "Int", "key": "Int", "cell": "Cell"}
+
+
+def always_exits(s):
+    if s[0] in ("return", "break", "continue"):
+        return True
+    if s[0] == "block":
+        return bool(s[1]) and always_exits(s[1][-1])
+    if s[0] == "if":
+        return always_exits(s[2]) and always_exits(s[3])
+    return False
+
+
+def writes_heap(node, sigs_pure):
+    """does the statement / expression tree store into the heap (directly or through a callee)?"""
+    if isinstance(node, tuple):
+        if node and node[0] == "assign":
+            lhs = node[1]
+            while lhs[0] == "paren":
+                lhs = lhs[1]
+            if lhs[0] == "field":
+                return True
+        if node and node[0] == "mcall":
+            return True
+        if node and node[0] == "call" and node[1] in sigs_pure and not sigs_pure[node[1]]:
+            return True
+        return any(writes_heap(x, sigs_pure) for x in node[1:])
+    if isinstance(node, list):
+        return any(writes_heap(x, sigs_pure) for x in node)
+    return False
+
+
+def has_loop(node):
+    if isinstance(node, tuple):
+        if node and node[0] in ("for", "dowhile"):
+            return True
+        return any(has_loop(x) for x in node[1:])
+    if isinstance(node, list):
+        return any(has_loop(x) for x in node)
+    return False
+
+
+class Tr2(Tr):
+    """translation with loops (a loop becomes a function recursive in a fuel argument; running out of fuel is `none`),
+    `break` / `continue` / `return` inside loops, and a counter `c` of the key comparisons in evaluation order
+    (`&&`, `||`, `!` in conditions are desugared into nested ifs so that short-circuit evaluation is counted exactly)"""
+
+    def __init__(self, fn, sigs, fields, in_item, info):
+        super().__init__(fn, sigs, fields, in_item)
+        self.info = info              # name -> dict(pure, counting, fuel, ret, params)
+        me = info[fn]
+        self.pure, self.counting, self.fuel, self.ret = me["pure"], me["counting"], me["fuel"], me["ret"]
+        self.loops = []
+        self.nloops = 0
+
+    # -- results
+    def res_type(self):
+        parts = ([] if self.pure else ["Heap"]) + ({"void": [], "ptr": ["Nat"], "usize": ["Nat"]}[self.ret]) + (["Nat"] if self.counting else [])
+        t = " × ".join(parts) if parts else "Unit"
+        return f"Option ({t})" if self.fuel else t
+
+    def result(self, val, ind):
+        parts = ([] if self.pure else ["h"]) + ([val] if val is not None else []) + (["c"] if self.counting else [])
+        t = "()" if not parts else (parts[0] if len(parts) == 1 else "(" + ", ".join(parts) + ")")
+        return f"{ind}{'some ' if self.fuel else ''}{t}\n"
+
+    def binders(self, env_items):
+        return "".join(f" ({lean_name(n)} : {LEAN_TY[ty]})" for n, ty in env_items)
+
+    # -- conditions with counting
+    def is_keycmp(self, e, env):
+        e = self.strip(e)
+        if e[0] == "bin" and e[1] in ("==", "!=", "<", ">", "<=", ">="):
+            try:
+                _, ta = self.rv(e[2], env)
+            except Refuse:
+                return False
+            return ta == "key"
+        return False
+
+    def ifthen(self, c, env, ind, T, E):
+        c = self.strip(c)
+        if c[0] == "not":
+            return self.ifthen(c[1], env, ind, E, T)
+        if c[0] == "bin" and c[1] == "&&":
+            return self.ifthen(c[2], env, ind, lambda i: self.ifthen(c[3], env, i, T, E), E)
+        if c[0] == "bin" and c[1] == "||":
+            return self.ifthen(c[2], env, ind, T, lambda i: self.ifthen(c[3], env, i, T, E))
+        pre = ""
+        if self.is_keycmp(c, env):
+            if not self.counting:
+                raise Refuse(f"{self.fn}: key comparison in a function without key parameter")
+            pre = f"{ind}let c := c + 1\n"
+        cond = self.cond(c, env)
+        return f"{pre}{ind}if {cond} then\n{T(ind + '  ')}{ind}else\n{E(ind + '  ')}"
+
+    # -- statements
+    def stmts2(self, items, env, ind, lp):
+        if not items:
+            if lp is not None:
+                return lp["cont"](env, ind)
+            if self.ret != "void":
+                raise Refuse(f"{self.fn}: control reaches the end of a non-void function")
+            return self.result(None, ind)
+        s, rest = items[0], items[1:]
+        k = s[0]
+        if k == "skip":
+            return self.stmts2(rest, env, ind, lp)
+        if k == "block":
+            if always_exits(s):
+                return self.stmts2(list(s[1]), env, ind, lp)
+            if rest and any(x[0] == "decl" for x in s[1]):
+                raise Refuse(f"{self.fn}: declaration inside a nested block followed by more statements")
+            return self.stmts2(list(s[1]) + rest, env, ind, lp)
+        if k == "return":
+            if s[1] is None:
+                if self.ret != "void":
+                    raise Refuse(f"{self.fn}: return without value")
+                return self.result(None, ind)
+            if self.ret == "void":
+                raise Refuse(f"{self.fn}: return with a value in a void function")
+            t, ty = self.rv(s[1], env, self.ret)
+            if ty != self.ret:
+                raise Refuse(f"{self.fn}: returns {ty}, declared {self.ret}")
+            return self.result(t, ind)
+        if k in ("break", "continue"):
+            if lp is None:
+                raise Refuse(f"{self.fn}: `{k}` outside a loop")
+            return lp["brk" if k == "break" else "cont"](env, ind)
+        if k == "decl":
+            _, ty, name, init = s
+            if name in env or (self.in_item and name in self.fields) or name in ("h", "c", "fuel", "self", "root", "this"):
+                raise Refuse(f"{self.fn}: `{name}` redeclared / shadows a member")
+            env2 = dict(env)
+            if ty == "Item*&":
+                env2[name] = "cell"
+                return f"{ind}let {lean_name(name)} : Cell := {self.lv(init, env)}\n" + self.stmts2(rest, env2, ind, lp)
+            if ty not in FIELD_TYPES or ty == "T":
+                raise Refuse(f"{self.fn}: local of type `{ty}`")
+            lt = FIELD_TYPES[ty]
+            env2[name] = lt
+            if init is None:
+                # uninitialised local: every read must be preceded by a store (not checked); it starts as 0 / null here
+                return f"{ind}let {lean_name(name)} : {LEAN_TY[lt]} := 0\n" + self.stmts2(rest, env2, ind, lp)
+            ini = self.strip(init)
+            if ini[0] == "assign":
+                raise Refuse(f"{self.fn}: assignment inside an initialiser")
+            if ini[0] == "call" and ini[1] in self.info and ini[1] != "Iterator":
+                return self.call_bind(ini, name, lt, env, env2, rest, ind, lp)
+            t, tt = self.rv(init, env, lt)
+            if tt != lt:
+                raise Refuse(f"{self.fn}: `{name}` of type {ty} initialised with {tt}")
+            return f"{ind}let {lean_name(name)} : {LEAN_TY[lt]} := {t}\n" + self.stmts2(rest, env2, ind, lp)
+        if k == "if":
+            c = self.strip(s[1])
+            if c[0] == "assign":
+                pre, env, val = self.assign(c[1], c[2], env, ind)
+                lhs = self.strip(c[1])
+                lty = env.get(lhs[1]) if lhs[0] == "id" else (self.field_type(lhs[2]) if lhs[0] == "field" else None)
+                if val is None or lty != "ptr":
+                    raise Refuse(f"{self.fn}: this assignment cannot be used as a condition")
+                a = self.stmts2([s[2]] + rest, env, ind + "  ", lp)
+                b = self.stmts2([s[3]] + rest, env, ind + "  ", lp)
+                return f"{pre}{ind}if ({val} ≠ 0) then\n{a}{ind}else\n{b}"
+            return self.ifthen(c, env, ind, lambda i: self.stmts2([s[2]] + rest, env, i, lp),
+                               lambda i: self.stmts2([s[3]] + rest, env, i, lp))
+        if k == "expr":
+            e = self.strip(s[1])
+            if e[0] == "preinc":
+                x = self.strip(e[1])
+                if x[0] != "id" or env.get(x[1]) != "usize":
+                    raise Refuse(f"{self.fn}: `++` on something that is not a usize local")
+                return f"{ind}let {lean_name(x[1])} := {lean_name(x[1])} + 1\n" + self.stmts2(rest, env, ind, lp)
+            if e[0] == "assign":
+                rhs = self.strip(e[2])
+                lhs = self.strip(e[1])
+                if rhs[0] == "call" and rhs[1] in self.info:
+                    if lhs[0] != "id" or lhs[1] not in env:
+                        raise Refuse(f"{self.fn}: result of `{rhs[1]}` stored into something that is not a local")
+                    return self.call_bind(rhs, lhs[1], env[lhs[1]], env, env, rest, ind, lp)
+                line, env, _ = self.assign(e[1], e[2], env, ind)
+                return line + self.stmts2(rest, env, ind, lp)
+            if e[0] == "mcall":
+                if e[2] != "updateHeightAndSlope":
+                    raise Refuse(f"{self.fn}: call of member `{e[2]}`")
+                t, ty = self.rv(e[1], env, "ptr")
+                return f"{ind}let h := updateHeightAndSlope h {t}\n" + self.stmts2(rest, env, ind, lp)
+            if e[0] == "call" and e[1] in self.sigs and self.sigs[e[1]][0] == "void":
+                rty, params = self.sigs[e[1]]
+                if len(params) != len(e[2]):
+                    raise Refuse(f"{self.fn}: `{e[1]}` called with {len(e[2])} arguments")
+                args = [self.lv(a, env) if pty == "cell" else self.rv(a, env, "ptr")[0] for (pty, _), a in zip(params, e[2])]
+                return f"{ind}let h := {e[1]} h {' '.join(args)}\n" + self.stmts2(rest, env, ind, lp)
+            raise Refuse(f"{self.fn}: expression statement `{e[0]}` is outside the translated subset")
+        if k in ("for", "dowhile"):
+            if lp is not None:
+                raise Refuse(f"{self.fn}: nested loop")
+            return self.loop(s, rest, env, ind)
+        raise Refuse(f"{self.fn}: statement form `{k}` is outside the translated subset")
+
+    def call_bind(self, call, name, lt, env, env2, rest, ind, lp):
+        """`name = f(args)` for a translated function f with a result"""
+        f = call[1]
+        inf = self.info[f]
+        if inf["ret"] != lt or lt == "void":
+            raise Refuse(f"{self.fn}: `{f}` returns {inf['ret']}, stored into {lt}")
+        if len(inf["params"]) != len(call[2]):
+            raise Refuse(f"{self.fn}: `{f}` called with {len(call[2])} arguments")
+        args = []
+        for (pty, _), a in zip(inf["params"], call[2]):
+            if pty == "cell":
+                args.append(self.lv(a, env))
+            else:
+                t, tt = self.rv(a, env, pty)
+                if tt != pty:
+                    raise Refuse(f"{self.fn}: argument of `{f}` is {tt}, expected {pty}")
+                args.append(t)
+        if inf["fuel"] and not self.fuel:
+            raise Refuse(f"{self.fn}: calls the looping `{f}` but has no fuel itself")
+        if inf["counting"] and not self.counting:
+            raise Refuse(f"{self.fn}: calls the comparing `{f}` but has no key parameter")
+        if not inf["pure"] and self.pure:
+            raise Refuse(f"{self.fn}: calls the storing `{f}` but is translated as read-only")
+        head = f"{f}{' fuel' if inf['fuel'] else ''} h{' c' if inf['counting'] else ''} {' '.join(args)}".rstrip()
+        pat = ([] if inf["pure"] else ["h"]) + [lean_name(name)] + (["c"] if inf["counting"] else [])
+        pat_t = pat[0] if len(pat) == 1 else "(" + ", ".join(pat) + ")"
+        body = self.stmts2(rest, env2, ind + ("    " if inf["fuel"] else ""), lp)
+        if inf["fuel"]:
+            return f"{ind}match {head} with\n{ind}| none => none\n{ind}| some {pat_t} =>\n{body}"
+        if len(pat) == 1:
+            return f"{ind}let {pat_t} := {head}\n{body}"
+        self.fresh += 1
+        tmp = f"r{self.fresh}"
+        lines = f"{ind}let {tmp} := {head}\n"
+        for j, x in enumerate(pat):
+            proj = ".".join(["2"] * j + (["1"] if j < len(pat) - 1 else []))
+            lines += f"{ind}let {x} := {tmp}.{proj}\n"
+        return lines + body
+
+    def loop(self, s, rest, env, ind):
+        if not self.fuel:
+            raise Refuse(f"{self.fn}: loop in a function translated without fuel")
+        self.nloops += 1
+        name = f"{self.fn}_loop{self.nloops if self.nloops > 1 else ''}"
+        pre = ""
+        env2 = dict(env)
+        if s[0] == "for":
+            _, init, cond, step, body = s
+            if init is not None:
+                if init[0] == "decl":
+                    _, ty, nm, ini = init
+                    if nm in env or ty not in FIELD_TYPES or ty == "T" or ini is None:
+                        raise Refuse(f"{self.fn}: for-init `{ty} {nm}`")
+                    lt = FIELD_TYPES[ty]
+                    t, tt = self.rv(ini, env, lt)
+                    if tt != lt:
+                        raise Refuse(f"{self.fn}: for-init `{nm}` of type {ty} initialised with {tt}")
+                    pre = f"{ind}let {lean_name(nm)} : {LEAN_TY[lt]} := {t}\n"
+                    env2[nm] = lt
+                else:
+                    e = self.strip(init[1])
+                    if e[0] != "assign":
+                        raise Refuse(f"{self.fn}: for-init expression")
+                    pre, env2, _ = self.assign(e[1], e[2], env2, ind)
+        else:
+            _, body, cond = s
+            step = []
+        params = list(env2.items())
+        call_args = " ".join(lean_name(n) for n, _ in params)
+        call = lambda e_, i_: f"{i_}{name} fuel h{' c' if self.counting else ''} {call_args}\n".replace("  \n", "\n")
+        outer_rest = lambda e_, i_: self.stmts2(rest, e_, i_, None)
+        if s[0] == "for":
+            def cont(e_, i_):
+                return self.stmts2(list(step), e_, i_, {"cont": call, "brk": call})   # after the step: next iteration
+            lp = {"cont": cont, "brk": outer_rest}
+            if cond is None:
+                inner = self.stmts2([body], env2, "    ", lp)
+            else:
+                inner = self.ifthen(cond, env2, "    ", lambda i: self.stmts2([body], env2, i, lp), lambda i: outer_rest(env2, i))
+        else:
+            def cont(e_, i_):
+                return self.ifthen(cond, e_, i_, lambda i: call(e_, i), lambda i: outer_rest(e_, i))
+            lp = {"cont": cont, "brk": outer_rest}
+            inner = self.stmts2([body], env2, "    ", lp)
+        self.loops.append(
+            f"def {name} (fuel : Nat) (h : Heap){' (c : Nat)' if self.counting else ''}{self.binders(params)} : {self.res_type()} :=\n"
+            f"  match fuel with\n  | 0 => none\n  | fuel + 1 =>\n{inner}")
+        return pre + call(env2, ind)
+
+
 def always_returns(s):
     if s[0] == "return":
         return True
@@ -579,6 +935,10 @@ def parse_params(fn, text):
         return params
     for p in text.split(","):
         m = re.fullmatch(r"\s*Item\s*\*\s*(&?)\s*(\w+)\s*", p)
+        mk = re.fullmatch(r"\s*const\s+T\s*&\s*(\w+)\s*", p)
+        if mk:
+            params.append(("key", mk.group(1)))
+            continue
         if not m:
             raise Refuse(f"{fn}: parameter `{p.strip()}`")
         params.append(("cell" if m.group(1) else "ptr", m.group(2)))
@@ -617,7 +977,103 @@ def translate_header(path):
             f" ({lean_name(n)} : {'Cell' if ty == 'cell' else 'Nat'})" for ty, n in params)
         body_l = tr.stmts(items, env, "  ", rty)
         out[fn] = f"def {fn} {binders} : {'Heap' if rty == 'void' else 'Heap × Nat'} :=\n{body_l}"
-    return out, norm
+    # ---- second layer: loops (fuel), key comparisons (counter) ----
+    info = {fn: {"pure": False, "counting": False, "fuel": False, "ret": {"void": "void", "Item*": "ptr"}[sigs[fn][0]],
+                 "params": sigs[fn][1]} for fn in FUNCS}
+    order2 = []
+    asts = {}
+    # public find / count
+    for fn in ("find", "count"):
+        try:
+            rty, static, ptxt, body, pos = extract(src, fn)
+        except Refuse as e:
+            if fn == "count" and "0 definitions" in str(e):
+                continue                      # Map has no count
+            raise
+        params = parse_params(fn, ptxt)
+        toks = tokenize(body)
+        norm[fn] = toks
+        p = P(toks, fn)
+        items = p.block_items()
+        if p.peek() is not None:
+            raise Refuse(f"{fn}: trailing tokens")
+        asts[fn] = (items, params, {"Iterator": "ptr", "usize": "usize", "void": "void", "Item*": "ptr"}[rty])
+        order2.append(fn)
+    # the upward loop of the private insert: `do { ... } while(parent);`
+    m = re.search(r"Iterator\s+insert\s*\(\s*Item\s*\*\*\s*cell\s*,\s*Item\s*\*\s*parent\s*,[^)]*\)\s*\{", src)
+    if not m:
+        raise Refuse("private insert(Item** cell, Item* parent, ...) not found")
+    ibody = src[m.end():balanced(src, m.end() - 1) - 1]
+    dos = [x.start() for x in re.finditer(r"\bdo\b", ibody)]
+    if len(dos) != 1:
+        raise Refuse(f"private insert: {len(dos)} do-while loops, expected exactly one (the upward rebalancing loop)")
+    bstart = ibody.index("{", dos[0])
+    bend = balanced(ibody, bstart)
+    mw = re.match(r"\s*while\s*\(", ibody[bend:])
+    if not mw:
+        raise Refuse("private insert: `do {...}` without `while(`")
+    wend = balanced(ibody, bend + mw.end() - 1, "(", ")")
+    frag = ibody[dos[0]:wend] + ";"
+    toks = tokenize(frag)
+    norm["insertRebalance"] = toks
+    p = P(toks, "insertRebalance")
+    items = p.block_items()
+    if p.peek() is not None or len(items) != 1 or items[0][0] != "dowhile":
+        raise Refuse("insertRebalance: the extracted fragment is not one do-while statement")
+    # variables the loop uses but does not declare: `parent` (parameter) and locals declared before the loop
+    used, declared = set(), set()
+
+    def walk(n):
+        if isinstance(n, tuple):
+            if n and n[0] == "id":
+                used.add(n[1])
+            if n and n[0] == "decl":
+                declared.add(n[2])
+            if n and n[0] == "field":
+                walk(n[1])
+                return
+            for x in n[1:]:
+                walk(x)
+        elif isinstance(n, list):
+            for x in n:
+                walk(x)
+    walk(items)
+    pre = []
+    for v in sorted(used - declared - {"parent"}):
+        if v in FUNCS or v in ("this",):
+            continue
+        md = re.search(r"\b(usize|ssize|Item\s*\*)\s+" + v + r"\s*;", ibody[:dos[0]])
+        if not md:
+            raise Refuse(f"insertRebalance: `{v}` is neither declared in the loop nor a plain local declared before it")
+        pre.append(("decl", re.sub(r"\s+", "", md.group(1)), v, None))
+    asts["insertRebalance"] = (pre + items, [("ptr", "parent")], "void")
+    order2.append("insertRebalance")
+    pure_of = {fn: False for fn in FUNCS}
+    for fn in order2:
+        items, params, ret = asts[fn]
+        pure = not writes_heap(items, pure_of)
+        pure_of[fn] = pure
+        fuel = has_loop(items) or any(info[g]["fuel"] for g in info if ("call", g) in {(x[0], x[1]) for x in _calls(items)})
+        info[fn] = {"pure": pure, "counting": any(t == "key" for t, _ in params), "fuel": fuel, "ret": ret, "params": params}
+    for fn in order2:
+        items, params, ret = asts[fn]
+        tr = Tr2(fn, sigs, fields, False, info)
+        env = {name: ty for ty, name in params}
+        body_l = tr.stmts2(items, env, "  ", None)
+        binders = (" (fuel : Nat)" if info[fn]["fuel"] else "") + " (h : Heap)" + (" (c : Nat)" if info[fn]["counting"] else "") + tr.binders([(n, t) for t, n in params])
+        out[fn] = "\n".join(tr.loops) + ("\n" if tr.loops else "") + f"def {fn}{binders} : {tr.res_type()} :=\n{body_l}"
+    return out, norm, order2
+
+
+def _calls(n):
+    if isinstance(n, tuple):
+        if n and n[0] == "call":
+            yield n
+        for x in n[1:]:
+            yield from _calls(x)
+    elif isinstance(n, list):
+        for x in n:
+            yield from _calls(x)
 
 
 def generate(repo, out_path):
@@ -627,21 +1083,22 @@ def generate(repo, out_path):
     norms = {}
     for tag, rel in HEADERS.items():
         try:
-            fns, norm = translate_header(Path(repo) / rel)
+            fns, norm, order2 = translate_header(Path(repo) / rel)
         except OSError as e:
             raise Refuse(f"{rel}: {e}")
         except Refuse as e:
             raise Refuse(f"{rel}: {e}")
         norms[tag] = norm
-        parts.append(f"\n/-! ### {rel} -/\nnamespace {tag}\n\n" + "\n".join(fns[f] for f in FUNCS) + f"\nend {tag}\n")
+        parts.append(f"\n/-! ### {rel} -/\nnamespace {tag}\n\n" + "\n".join(fns[f] for f in FUNCS + order2) + f"\nend {tag}\n")
     same = [f for f in FUNCS if norms["Map"][f] == norms["Multi"][f]]
+    nfun = sum(len(n) for n in norms.values())
     parts.append("\nend Nstd.Generated.AvlRot\n")
     text = "".join(parts)
     out_path = Path(out_path)
     out_path.parent.mkdir(parents=True, exist_ok=True)
     if not out_path.exists() or out_path.read_text() != text:
         out_path.write_text(text)
-    return f"{len(FUNCS)} functions x 2 headers translated ({len(same)} token-identical in both headers)"
+    return f"{nfun} functions translated (rotations x 2 headers: {len(same)} of {len(FUNCS)} token-identical; find, count, upward loop of insert)"
 
 
 if __name__ == "__main__":
